@@ -7,6 +7,10 @@ func init() {
 	const txs = "internal/storage/ledgerstore/transactions.go"
 	const nums = "internal/numscript.go"
 	addMutants(
+		Mutant{Property: "C10", Name: "reverse-mirrors-endpoints-only", File: "internal/transaction.go",
+			Old: "\tpostings := make(Postings, len(t.Postings))\n\tcopy(postings, t.Postings)\n\tpostings.Reverse()\n", New: "\tn := len(t.Postings)\n\tpostings := make(Postings, n)\n\tcopy(postings, t.Postings)\n\tfor i := range postings {\n\t\tmirror := t.Postings[n-1-i]\n\t\tpostings[i].Source, postings[i].Destination = mirror.Destination, mirror.Source\n\t}\n", Expect: "R10g:"},
+		Mutant{Property: "C10", Name: "reverse-builds-mirrored-copies", File: "internal/transaction.go",
+			Old: "\tpostings := make(Postings, len(t.Postings))\n\tcopy(postings, t.Postings)\n\tpostings.Reverse()\n", New: "\tn := len(t.Postings)\n\tpostings := make(Postings, n)\n\tfor i := range postings {\n\t\tmirror := t.Postings[n-1-i]\n\t\tpostings[i].Source = mirror.Destination\n\t\tpostings[i].Destination = mirror.Source\n\t\tpostings[i].Asset = mirror.Asset\n\t\tpostings[i].Amount = mirror.Amount\n\t}\n", Expect: "none", Benign: true},
 		Mutant{Property: "C11", Name: "reference-lookup-skips-reverted-sql", File: "internal/storage/ledgerstore/transactions.go",
 			Old: "\t\t\t\tWhere(\"transactions.reference = ?\", ref).\n\t\t\t\tWhere(\"transactions.ledger = ?\", store.name).", New: "\t\t\t\tWhere(\"transactions.reference = ?\", ref).\n\t\t\t\tWhere(\"transactions.ledger = ?\", store.name).\n\t\t\t\tWhere(\"transactions.reverted_at is null\").", Expect: "R11d:(*internal/storage/ledgerstore.Store)"},
 		Mutant{Property: "C11", Name: "reference-lookup-skips-reverted-inmemory", File: "internal/storage/inmemory.go",
